@@ -6,8 +6,8 @@
 void harness(void)
 {
     xv_ghost_havoc(); AP_GHOST_HAVOC();
-    const char *path_str; struct attr_pcomp **comp;
-    int rv = attr_pcomp_parse_index(path_str, comp);
+    const char *path_str; struct attr_pcomp *slot = NULL;
+    int rv = attr_pcomp_parse_index(path_str, &slot);
     if (rv == -1) XV_CANARY("rejected");
     if (rv == 2 && xv_ap_strtol_val == 7) XV_CANARY("single digit");
     if (rv > 0 && xv_ap_strtol_val == LONG_MAX - 1) XV_CANARY("largest index");
